@@ -256,6 +256,10 @@ func (p *Parser) parseIndexExpression(left Expression) Expression {
 
 	p.nextToken()
 
+	if !p.curTokenIsIdentifier() {
+		return nil
+	}
+
 	expression.Index = p.parseIdentifier()
 
 	if expression.Token.Type == DOT {
@@ -278,6 +282,11 @@ func (p *Parser) parseBetweenExpression(left Expression) Expression {
 	}
 
 	p.nextToken()
+
+	if !p.curTokenIsIdentifier() {
+		return nil
+	}
+
 	expression.Range[0] = p.parseIdentifier()
 
 	if !p.expectPeek(AND) {
@@ -285,6 +294,11 @@ func (p *Parser) parseBetweenExpression(left Expression) Expression {
 	}
 
 	p.nextToken()
+
+	if !p.curTokenIsIdentifier() {
+		return nil
+	}
+
 	expression.Range[1] = p.parseIdentifier()
 
 	return expression
@@ -414,6 +428,19 @@ func (p *Parser) parseActions(token Token) []Expression {
 }
 
 // helpers
+
+// curTokenIsIdentifier reports an error unless the current token is an identifier
+// (path steps and BETWEEN bounds are identifiers, never operators, delimiters or the end of input)
+func (p *Parser) curTokenIsIdentifier() bool {
+	if p.curToken.Type != IDENT {
+		msg := fmt.Sprintf("expected token to be %s, got %s instead", IDENT, p.curToken.Type)
+		p.errors = append(p.errors, msg)
+
+		return false
+	}
+
+	return true
+}
 
 func (p *Parser) peekTokenIs(t TokenType) bool {
 	return p.peekToken.Type == t
